@@ -17,7 +17,8 @@ SPEC = {
              "another node, for mapping M / F) = 252 cells; transport matrix: identity asserted by the transport (8) x credential (7) x tunnel state (4) = 224; config matrix: no "
              "routing table / other node unreachable / route past its expiry x identity (5) x credential (7) = 175; zero-listen matrix: a mapping the server itself listens on (listen client 0) x identity (8, incl. refused "
              "handshake and id-less vouching transport) x credential (5) x tunnel state (4) = 160; expiry matrix: ExpiresAt -29/-5/-1/+2/+5/+29 s around the request x identity (3) x credential (3) x tunnel state (3) = 162; "
-             "plus random worlds (1-3 "
+             "two-node cases: two real session managers over one storage (node-A with its CrossNodeListener, node-B dialling it), the "
+             "attacker's forwarded target names one of 10 variant spellings of the victim's waiting tunnel id; plus random worlds (1-3 "
              "mappings, shared and empty secrets, clients on both sides, malformed and empty payloads, mostly entitled requests with "
              "at most one thing broken); one end-to-end case (mapping created by the real PortMappingService, listen client and "
              "target client both admitted, bytes flow). Observed: the ack on the "
